@@ -329,6 +329,11 @@ def gen_params(rng, spec):
         p["warmup"] = dict(rule=rng.randrange(9), autoFlag=rng.random() < 0.3, maxTime=rng.choice([2, 5, 40]),
                            absence=sorted(set(rng.choice([0, 1, 2, 4]) for _ in range(rng.randint(0, 2)))),
                            backward=rng.random() < 0.3)
+        # between the two runs the per-resource calendars are edited (the earlier run saw other absence lists)
+        p["warmup"]["edit_absence"] = rng.random() < 0.5
+        # and the observed run may keep the state and/or the logs of the earlier one
+        if rng.random() < 0.4:
+            p["initState"], p["initLog"] = rng.choice([(True, False), (False, True), (False, False)])
     return p
 
 
